@@ -100,6 +100,168 @@ func exercise(s schema.Scope, inputs []any) (failed string) {
 	return ""
 }
 
+// exerciseObjects runs the data operations on every object of a scope's table with inputs derived from the
+// object itself; it returns the name of the operation that panicked.
+func exerciseObjects(s schema.Scope) (failed string) {
+	op := "Objects"
+	defer func() {
+		if r := recover(); r != nil {
+			if os.Getenv("VERIF_DEBUG") != "" {
+				fmt.Fprintf(os.Stderr, "panic in %s: %v\n", op, r)
+			}
+			failed = op
+		}
+	}()
+	objs := s.Objects()
+	for _, id := range sortedStrKeys(objs) {
+		o := objs[id]
+		if o == nil {
+			continue
+		}
+		for _, text := range []bool{false, true} {
+			op = "object " + id + ": probe"
+			in := probeFor(o, 4, text)
+			op = "object " + id + ": Unserialize"
+			u, err := o.Unserialize(in)
+			op = "object " + id + ": ValidateCompatibility"
+			_ = o.ValidateCompatibility(in)
+			if err == nil {
+				op = "object " + id + ": Validate(unserialized)"
+				_ = o.Validate(u)
+				op = "object " + id + ": Serialize(unserialized)"
+				_, _ = o.Serialize(u)
+			}
+		}
+	}
+	return ""
+}
+
+type probeDisc interface{ DiscriminatorFieldName() string }
+
+// probeFor builds an input from the ACCEPTED schema itself, through the public accessors.
+func probeFor(t schema.Type, depth int, text bool) any {
+	if t == nil || depth <= 0 {
+		return nil
+	}
+	switch t.TypeID() {
+	case schema.TypeIDInt, schema.TypeIDFloat, schema.TypeIDIntEnum:
+		if text {
+			return "5"
+		}
+		return int64(5)
+	case schema.TypeIDString, schema.TypeIDStringEnum:
+		return "abc"
+	case schema.TypeIDBool:
+		return true
+	case schema.TypeIDPattern:
+		return "a+"
+	case schema.TypeIDAny:
+		return "x"
+	case schema.TypeIDList:
+		if l, ok := t.(c12HasItems); ok {
+			return []any{probeFor(l.Items(), depth-1, text)}
+		}
+	case schema.TypeIDMap:
+		if m, ok := t.(c12HasKV); ok {
+			k := probeFor(m.Keys(), depth-1, text)
+			switch k.(type) {
+			case string, int64:
+			default:
+				k = "k"
+			}
+			return map[any]any{k: probeFor(m.Values(), depth-1, text)}
+		}
+	case schema.TypeIDRef:
+		if r, ok := t.(*schema.RefSchema); ok && r.ObjectReady() {
+			return probeFor(r.GetObject(), depth-1, text)
+		}
+	case schema.TypeIDObject, schema.TypeIDScope:
+		if o, ok := t.(schema.Object); ok {
+			out := map[any]any{}
+			for name, p := range o.Properties() {
+				out[name] = probeFor(p.Type(), depth-1, text)
+			}
+			return out
+		}
+	case schema.TypeIDOneOfString, schema.TypeIDOneOfInt:
+		var key any
+		var member schema.Object
+		if o, ok := t.(c12TypesS); ok {
+			ks := sortedStrKeys(o.Types())
+			if len(ks) > 0 {
+				key, member = ks[0], o.Types()[ks[0]]
+			}
+		} else if o, ok := t.(c12TypesI); ok {
+			first := true
+			for k, m := range o.Types() {
+				if first || k < key.(int64) {
+					key, member, first = k, m, false
+				}
+			}
+		}
+		if member == nil {
+			return map[any]any{}
+		}
+		body, _ := probeFor(member, depth-1, text).(map[any]any)
+		if body == nil {
+			body = map[any]any{}
+		}
+		if d, ok := t.(probeDisc); ok {
+			body[d.DiscriminatorFieldName()] = key
+		}
+		return body
+	}
+	return nil
+}
+
+// numbersAsText: the value with every integer / float VALUE leaf (not map keys) replaced by its decimal text.
+func numbersAsText(v *sx.Node) (*sx.Node, bool) {
+	if !v.IsList() {
+		return v, false
+	}
+	switch v.Head() {
+	case "i":
+		if !v.List[1].IsList() {
+			return vS(v.List[2].Atom), true
+		}
+		return v, false
+	case "f":
+		if !v.List[1].IsList() {
+			return vS(fmtG(flFromSx(v.List[2]))), true
+		}
+		return v, false
+	case "sl":
+		out := sx.L(v.List[0], tAnySlice, v.List[2])
+		changed := false
+		for _, it := range v.List[3:] {
+			x, c := numbersAsText(it)
+			changed = changed || c
+			out.Append(x)
+		}
+		if !changed {
+			return v, false
+		}
+		return out, true
+	case "m":
+		t := v.List[1]
+		if t.String() != tStrMap.String() {
+			t = tAnyMap
+		}
+		out := sx.L(v.List[0], t, v.List[2])
+		changed := false
+		for _, e := range v.List[3:] {
+			x, c := numbersAsText(e.List[1])
+			changed = changed || c
+			out.Append(sx.L(e.List[0], x))
+		}
+		if !changed {
+			return v, false
+		}
+		return out, true
+	}
+	return v, false
+}
+
 // fixedInputs: inputs that do not depend on the schema.
 func fixedInputs() []any {
 	return []any{
@@ -115,6 +277,15 @@ func runMutantCase(p *sx.Node) *sx.Node {
 	var inputs []any
 	for _, in := range p.List[4].List[1:] {
 		inputs = append(inputs, valFromSx(in))
+	}
+	// the same shaped inputs with every number written as a string (what a YAML or command-line front end hands
+	// over): numbers given as text go through the units parser and the string mappers
+	nText := 0
+	for _, in := range p.List[4].List[1:] {
+		if s, changed := numbersAsText(in); changed && nText < 4 {
+			inputs = append(inputs, valFromSx(s))
+			nText++
+		}
 	}
 	inputs = append(inputs, fixedInputs()...)
 	var scopes []labelledScope
@@ -179,7 +350,22 @@ func runMutantCase(p *sx.Node) *sx.Node {
 		return sx.L(sx.A("panic"), sx.A("use"), sx.S("SelfSerialize"))
 	}
 	for _, ls := range scopes {
-		if op := exercise(ls.scope, inputs); op != "" {
+		// inputs shaped by the schema the loader BUILT (every property, one item / entry per container, the first
+		// member of every one-of), numbers once as numbers and once as decimal text
+		mine := inputs
+		for _, text := range []bool{false, true} {
+			func() {
+				defer func() { _ = recover() }() // reading a broken schema is `exercise`'s business (Properties ...)
+				if p := probeFor(ls.scope, 5, text); p != nil {
+					mine = append(append([]any{}, mine...), p)
+				}
+			}()
+		}
+		if op := exercise(ls.scope, mine); op != "" {
+			return sx.L(sx.A("panic"), sx.A("use"), sx.S(op))
+		}
+		// every object of the scope's table, whether the root reaches it or not (Objects() hands them all out)
+		if op := exerciseObjects(ls.scope); op != "" {
 			return sx.L(sx.A("panic"), sx.A("use"), sx.S(op))
 		}
 	}
